@@ -123,9 +123,33 @@ def window_cases(tier):
                     yield {"loop": loop, "locks": ["prio", "prio"], "conds": [], "events": 0, "acts": acts}
 
 
+def fan_cases(tier):
+    """lock chains in which EVERY lock has a second, independent waiter: O (least urgent, runnable later) holds
+    lock 0; X_k holds lock k and waits for lock k-1 (k = 1..d); side waiter P_k waits for lock k-1; then O is made
+    runnable, a runnable bystander M and the urgent W (waits for lock d) arrive.  All urgency orders of X / P / M
+    around W.  The inherited priority must reach O through queues whose order is stale while it is propagated."""
+    log = lambda n: ["do", ["log", n], ["end"]]
+    for loop in ("prio", "stock"):
+        for d in ((1, 2) if tier == "quick" else (1, 2, 3)):
+            for (px, pp, pm, pw) in itertools.product((5, 8), (3, 6, 9), (2, 4), (1,)):
+                for side in range(1, d + 1) if tier == "quick" else range(0, d + 1):
+                    acts = [["spawn", ["prio", [10, 1]], sect(0, ["do", ["eventwait", 0], log(100)])], ["step"]]
+                    for k in range(1, d + 1):
+                        acts += [["spawn", ["prio", [px, 1]], sect(k, sect(k - 1, log(100 + k)))], ["step"]]
+                    # side waiters on lock side-1 (0: none)
+                    if side:
+                        acts += [["spawn", ["prio", [pp, 1]], sect(side - 1, log(200 + side))], ["step"]]
+                    acts += [["do", ["eventset", 0]],
+                             ["spawn", ["prio", [pm, 1]], ["do", ["log", 300], ["do", ["sleep0"], log(301)]]],
+                             ["spawn", ["prio", [pw, 1]], sect(d, log(400))]]
+                    acts += [["step"]] * (12 + 4 * d)
+                    yield {"loop": loop, "locks": ["prio"] * (d + 1), "conds": [], "events": 1, "acts": acts}
+
+
 def gen(rng, tier):
     yield from chain_cases(tier)
     yield from window_cases(tier)
+    yield from fan_cases(tier)
     for _ in range(400 if tier == "quick" else 2500):
         yield gen_case(rng)
 
@@ -219,7 +243,8 @@ PROP = Prop(
     theory_files=["theories/Sched/Model.v", "theories/Sched/Corr.v", "theories/Sched/InheritProofs.v"],
     streams=[make_stream("inherit", gen, oracle)],
     rule="enumerated lock chains of length 1..4 (task i holds lock i and waits for lock i+1; last holder runnable or "
-         "blocked on an event) with all priority pairs of two late waiters, plus random programs: 2..6 tasks of "
+         "blocked on an event) with all priority pairs of two late waiters; chains in which every lock has a second independent waiter and a "
+         "runnable bystander competes with the inheriting holder (all urgency orders); plus random programs: 2..6 tasks of "
          "priorities from a small set with ties (ints, floats, Priority enum members, plain tasks) taking 1..3 locks "
          "in a fixed order, sleeping, waiting for an event, with urgent late arrivals; stock, scheduling and "
          "priority loop; non-trivial: >=4 actions of >=3 kinds",
